@@ -22,8 +22,8 @@ def showSet (tag : String) (xs : List Nat) : String :=
 
 def showGang (s : State) (g : Gang) : String :=
   s!"g {g.id} {b2i g.init} {g.min} {g.policy} {b2i g.strict} {b2i (infoSat s g.info)} "
-    ++ showSet "grp" g.group ++ " " ++ showSet "ch" g.children ++ " " ++ showSet "pe" g.pending
-    ++ " " ++ showSet "wa" g.waiting ++ " " ++ showSet "bo" g.bound
+    ++ showSet "grp" g.group ++ " " ++ showSet "ch" g.ps.children ++ " " ++ showSet "pe" g.ps.pending
+    ++ " " ++ showSet "wa" g.ps.waiting ++ " " ++ showSet "bo" g.ps.bound
 
 def insGang (g : Gang) : List Gang → List Gang
   | [] => [g]
